@@ -18,7 +18,7 @@ ASSUMPTIONS = ["bytes received by the backend are attributed to the earliest poi
 
 
 def nontrivial(c):
-    return c.kind == "inagain" or " R" in (" " + c.impl)
+    return c.kind in ("inagain", "inbeforeout") or " R" in (" " + c.impl)
 
 
 def signature(c):
